@@ -23,6 +23,7 @@ func init() {
 		Assumptions: []string{"key range of a node = closed interval between the ancestors' separator keys that bound it (deleting or re-inserting a separator legitimately re-creates the nodes it bounds)"},
 		MinObs:      map[string]int64{"batches": 5000, "noop_batches": 1000, "batches_h_ge2_modified": 500, "isdirty_samples": 20000},
 		Run:         runC13,
+		EvalObs:     []string{"batches"},
 	})
 }
 
